@@ -7,11 +7,12 @@ import os
 from . import core
 
 
-def mc(res, maxlen, maxfeeds, fixed, workers):
-    cfg = os.path.join(res.wd, "MC_NewlineCache_%s.cfg" % fixed)
+def mc(res, maxlen, maxfeeds, fixed, workers, fixedr="both"):
+    cfg = os.path.join(res.wd, "MC_NewlineCache_%s_%s.cfg" % (fixed, fixedr))
     with open(cfg, "w") as f:
-        f.write("SPECIFICATION MCSpec\nCONSTANTS\n  MaxLen = %d\n  MaxFeeds = %d\n  Fixed = %s\n"
-                "INVARIANT InvState\nINVARIANT InvQueries\nINVARIANT InvSpans\nCHECK_DEADLOCK FALSE\n" % (maxlen, maxfeeds, fixed))
+        f.write("SPECIFICATION MCSpec\nCONSTANTS\n  MaxLen = %d\n  MaxFeeds = %d\n  Fixed = %s\n  FixedR = \"%s\"\n"
+                "INVARIANT InvState\nINVARIANT InvQueries\nINVARIANT InvSpans\nINVARIANT InvRender\nCHECK_DEADLOCK FALSE\n"
+                % (maxlen, maxfeeds, fixed, fixedr))
     return core.run_tlc("MC_NewlineCache", cfg, {}, res.wd, timeout=1500, workers=workers, heap="6g")
 
 
@@ -58,6 +59,12 @@ def main(pid, tier, replay=None):
         res.notes["mc_mutation_sanity"] = dict(refuted=bool(r2["error"]))
         if not r2["error"]:
             raise core.ToolError("vacuity: the pre-fix span_line_bytes guard was not refuted by the model")
+        # ... and so must the formatter's rendering loop without either of its two repairs
+        for fr in ("nosat", "noempty"):
+            r3 = mc(res, 4, 1, "TRUE", 4, fr)
+            res.notes["mc_render_sanity_" + fr] = dict(refuted="InvRender" in (r3["error"] or ""))
+            if "InvRender" not in (r3["error"] or ""):
+                raise core.ToolError("vacuity: the rendering loop without repair '%s' was not refuted by the model" % fr)
     # (2) the real cache
     job = os.path.join(res.wd, "job.json")
     trace = os.path.join(res.wd, "trace.ndjson")
@@ -77,6 +84,7 @@ def main(pid, tier, replay=None):
     cases = split(trace)
     res.notes["cases"] = len(cases)
     res.notes["exhaustive_family"] = "all texts over {a, e-acute, LF, CR} up to %d bytes x all chunkings into <= 3 feeds" % (6 if thorough else 4)
+    res.notes["rendering"] = "every span of every text is also rendered by SpannedDiagnosticFormatter::underline_span_with_text and compared with Diagnostics.tla's Render (display widths: the drivers' alphabet)"
     # binding self-test: damage one answer
     st = None
     for c in cases:
@@ -86,6 +94,11 @@ def main(pid, tier, replay=None):
                 e["spans"][0][3] += 1
                 v = validate(res, 9000, [c[:-1] + [json.dumps(e) + "\n"]])
                 st = dict(rejected=len(v["devs"]) > 0, corruption="span end + 1")
+                e = json.loads(c[-1])
+                e["spans"][0][20] = e["spans"][0][20] + [32]
+                v = validate(res, 9001, [c[:-1] + [json.dumps(e) + "\n"]])
+                st["rejected_render"] = any("rendering" in d["code"] for d in v["devs"])
+                st["rejected"] = st["rejected"] and st["rejected_render"]
                 break
     res.notes["binding_selftest"] = st
     if st and not st["rejected"]:
